@@ -49,7 +49,9 @@ structure TTask where
   id : Nat
   rid : Nat
   ticket : Nat              -- `request.ticket` captured by `partial(_timeout_search_request, request)`
-  deadline : Nat            -- loop time at which `asyncio.sleep(timeout)` returns
+  timeout : Nat             -- `Timer.timeout` when the task was created
+  deadline : Option Nat     -- loop time at which `asyncio.sleep(timeout)` returns; `none`: the task has not
+                            -- taken its first step yet (`create_task` only schedules it)
   cancelled : Bool          -- `task.cancel()` was called; the task finishes at the next loop iteration
 deriving Repr, DecidableEq
 
@@ -111,8 +113,8 @@ def timerCancel (s : State) (rid : Nat) (h : Option Nat) : State :=
 /-- `Timer.start` (tasks.py:86-88) for request `rid`/`tk` with `timeout`. -/
 def timerStart (s : State) (rid tk timeout : Nat) : State :=
   { s with nextTask := s.nextTask + 1,
-           tasks := s.tasks ++ [{ id := s.nextTask, rid := rid, ticket := tk, deadline := s.now + timeout,
-                                  cancelled := false }],
+           tasks := s.tasks ++ [{ id := s.nextTask, rid := rid, ticket := tk, timeout := timeout,
+                                  deadline := none, cancelled := false }],
            requests := setHandle s.requests rid (some s.nextTask) }
 
 /-! ### Requests -/
@@ -158,32 +160,56 @@ def wishlistRound : Nat → State → List Obs → State × List Obs
 def fireTask (s : State) (t : TTask) : State × List Obs :=
   if s.requests.any (·.ticket = t.ticket) then
     ({ s with requests := s.requests.filter (·.ticket ≠ t.ticket) },
-     [Obs.removed s.now t.rid t.ticket t.deadline t.id])
+     [Obs.removed s.now t.rid t.ticket (t.deadline.getD 0) t.id])
   else (s, [Obs.loopErr s.now t.rid t.ticket t.id])
 
 def fireAll : List TTask → State → List Obs → State × List Obs
   | [], s, o => (s, o)
   | t :: ts, s, o => let r := fireTask s t; fireAll ts r.1 (o ++ r.2)
 
-def isDue (now : Nat) (t : TTask) : Bool := !t.cancelled && decide (t.deadline ≤ now)
-def isFinishing (now : Nat) (t : TTask) : Bool := t.cancelled || decide (t.deadline ≤ now)
+/-- first step of a `Timer.runner` task: `asyncio.sleep(timeout)` is called *now* (tasks.py:100) -/
+def startTask (now : Nat) (t : TTask) : TTask :=
+  match t.deadline with
+  | none => { t with deadline := some (now + t.timeout) }
+  | some _ => t
+
+def reached (now : Nat) (t : TTask) : Bool :=
+  match t.deadline with
+  | none => false
+  | some d => decide (d ≤ now)
+
+def isDue (now : Nat) (t : TTask) : Bool := !t.cancelled && reached now t
+def isFinishing (now : Nat) (t : TTask) : Bool := t.cancelled || reached now t
 
 /-- `Timer._unset_task` (FIXED, tasks.py:109-111) for every task of `fin` that finished: the Timer object
 of request `t.rid` drops its handle only if the handle still is `t`. -/
 def unsetDone (fin : List TTask) (r : Req) : Req :=
   if fin.any (fun t => t.rid = r.rid && r.handle == some t.id) then { r with handle := none } else r
 
-def settle (s : State) : State × List Obs :=
-  let r := fireAll (s.tasks.filter (isDue s.now)) s []
-  let s1 := { r.1 with tasks := s.tasks.filter (fun t => !isFinishing s.now t),
-                       requests := r.1.requests.map (unsetDone (s.tasks.filter (isFinishing s.now))) }
-  match s1.wlNext with
-  | none => (s1, r.2)
+/-- The loop runs the timer tasks: tasks created since the last run take their first step, cancelled tasks
+finish, due tasks run their callback and finish, done-callbacks run. -/
+def settleTimers (s : State) : State × List Obs :=
+  let ts := s.tasks.map (startTask s.now)
+  let r := fireAll (ts.filter (isDue s.now)) s []
+  ({ r.1 with tasks := ts.filter (fun t => !isFinishing s.now t),
+              requests := r.1.requests.map (unsetDone (ts.filter (isFinishing s.now))) }, r.2)
+
+/-- The loop runs the wishlist `BackgroundTask.runner` (tasks.py:65-75) when its sleep is over (or it was just
+started): one `_wishlist_job`, then `sleep(interval)`. The timer tasks created by the job take their first
+step in the next iteration of this same run. -/
+def settleWishlist (s : State) (o : List Obs) : State × List Obs :=
+  match s.wlNext with
+  | none => (s, o)
   | some w =>
-    if w ≤ s1.now then
-      let r2 := wishlistRound s1.cfg.items s1 r.2
-      ({ r2.1 with wlNext := some (s1.now + s1.wlInterval.getD defaultWishlistInterval) }, r2.2)
-    else (s1, r.2)
+    if w ≤ s.now then
+      let r := wishlistRound s.cfg.items s o
+      ({ r.1 with wlNext := some (s.now + s.wlInterval.getD defaultWishlistInterval),
+                  tasks := r.1.tasks.map (startTask s.now) }, r.2)
+    else (s, o)
+
+def settle (s : State) : State × List Obs :=
+  let r := settleTimers s
+  settleWishlist r.1 r.2
 
 def step (s : State) : Op → State × List Obs
   | .search k => newRequest s k (requestTimeout s.cfg)
